@@ -144,7 +144,9 @@ def h_generators(P, gen, n_pop, d=1):
     for lvl, ids in enumerate([["root"], ["0", "1"], ["0/0"]]):
         for i in ids:
             pop = mk_inds(P, prob, n_pop, d, f"{i.replace('/', '_')}_")
-            dm = mk_deme(i, lvl, active=P.bool(f"act.{i}"), population=pop)
+            older = mk_inds(P, prob, 1, d, f"{i.replace('/', '_')}_old")  # an earlier generation (possibly holding the best ever)
+            dm = mk_deme(i, lvl, active=P.bool(f"act.{i}"), population=older)
+            dm._history.append([list(pop)])
             levels[lvl].append(dm)
     tree = mk_tree(levels)
     if gen == "best":
@@ -195,6 +197,25 @@ def h_generators(P, gen, n_pop, d=1):
                 P.oblige("bestperdeme.is_current_best", not_worse(c.individuals[0].fitness, y.fitness, maximize))
         else:
             P.oblige("nbc_generator.mean_distance_exported", c.features.nbc_mean_distance is not None)
+
+
+def h_first_round(P, n, L):
+    """First sprouting round (the tree is just the root): the composed mechanism already honours the level limit."""
+    from pyhms.sprout import sprout_filters as sf, sprout_generators as sg
+    from pyhms.sprout.sprout_mechanisms import SproutMechanism
+
+    prob, F, maximize, bounds = mk_problem(P, 1)
+    root = mk_deme("root", 0, active=True, population=mk_inds(P, prob, n, 1, "r"))
+
+    class Gen(sg.SproutCandidatesGenerator):
+        def __call__(self, tree):
+            return _cands({root: list(root.current_population)})
+
+    mech = SproutMechanism(Gen(), [], [sf.LevelLimit(L)])
+    out = mech.get_seeds(mk_tree([[root], []]))
+    kept = out[root].individuals if root in out else []
+    P.oblige("C08.first_round_within_limit", len(kept) <= L)
+    P.oblige("chain.filters_only_remove", all(any(x is y for y in root.current_population) for x in kept))
 
 
 def h_chain(P, n, L):
@@ -252,4 +273,5 @@ def cases(tier):
     cs.append(dict(name="generators.nbc-local", fn=h_generators, params=dict(gen="nbc-local", n_pop=2), weight=5, **R))
     for L in (1, 2):
         cs.append(dict(name=f"chain.L{L}", fn=h_chain, params=dict(n=3, L=L), weight=5, **R))
+        cs.append(dict(name=f"chain.first_round.L{L}", fn=h_first_round, params=dict(n=3, L=L), weight=3, **R))
     return cs
